@@ -99,7 +99,35 @@ def det_split_differs(f):
     return t(a) != t(b)
 
 
-DETECTORS = {"split_differs": det_split_differs, "rename_moves": det_rename_moves, "rerun_changes": det_rerun_changes, "varies": det_varies, "false_claim": det_false_claim, "hang": det_hang, "lint_count": det_lint_count,
+def det_split_moves(f):
+    """the include tree of the witness (base file first, one include) reports an item on other text than its
+    pasted form: same titles, but the characters the location designates differ"""
+    files = [tuple(x) for x in f["files"]]
+    a, b = run_lines_isolated(RVH_DEBUG, [pipe_req("run", files), pipe_req("run", [("m.s", f["flat"])])])
+
+    def designated(blk, texts):
+        out = []
+        for l in blk:
+            m = re.search(r" at=(\d+):(\d+):\d+-\d+:(\d+):\d+@(\d+)", l)
+            if l.startswith("RUN ") and m:
+                ln, sc, ec, fi = (int(x) for x in m.groups())
+                ls = texts[fi].split("\n") if fi < len(texts) else []
+                out.append((re.search(r" title=(\S+)", l).group(1), ls[ln][sc:ec + 1] if ln < len(ls) else None))
+        return sorted(out, key=str)
+    da, db = designated(a, [t for _, t in files]), designated(b, [f["flat"]])
+    return bool(da) and [t for t, _ in da] == [t for t, _ in db] and da != db
+
+
+def det_rewrite_differs(f):
+    """the witness and its meaning-preserving rewriting `other` get different parse errors or diagnostics"""
+    a, b = run_lines_isolated(RVH_DEBUG, [pipe_req("parse,lints", [("m.s", f["input"])]),
+                                          pipe_req("parse,lints", [("m.s", f["other"])])])
+    k = lambda blk: (sum(1 for l in blk if l.startswith("PERR")),
+                     sorted(re.search(r"code=(\S+)", l).group(1) for l in blk if l.startswith("LINT ")))
+    return k(a) != k(b)
+
+
+DETECTORS = {"rewrite_differs": det_rewrite_differs, "split_moves": det_split_moves, "split_differs": det_split_differs, "rename_moves": det_rename_moves, "rerun_changes": det_rerun_changes, "varies": det_varies, "false_claim": det_false_claim, "hang": det_hang, "lint_count": det_lint_count,
              "cfgerr": det_cfgerr, "rerun_changes_udef": det_rerun_changes_udef}
 
 
